@@ -313,6 +313,8 @@ class World:
         self.clock = None
         self.probes = {}
         self.checkpoints_seen = 0
+        self.violations = []  # raised by the seams themselves (reported by the driver after the segment)
+        self.last_load_error = None
 
     def probe(self, name, n=1):
         self.probes[name] = self.probes.get(name, 0) + n
@@ -361,6 +363,9 @@ class World:
                 loaded = None
             if loaded is None:
                 entry['content'] = None
+                world.violations.append({'invariant': 'disk.save_succeeded_but_file_does_not_load',
+                                         'detail': f'save of {path} returned normally, but the file it left does not '
+                                                   f'load as the data that was saved ({getattr(world, "last_load_error", "content differs")})'})
             entry.update({'marker': world.fs.n_mut, 'sha1': hashlib.sha1(raw).hexdigest(), 'size': len(raw),
                           'completed': loaded is not None})
             world.probe('save_completed')
@@ -387,6 +392,8 @@ class World:
         fs.crash_at = None
         fs.crash_tear = None
         fs.error_at = {}
+        fs.diskfull_at = None
+        fs.full = False  # the user freed some space before restarting
         self.sigint_at = set()
         self.kill_after_sigint = None
         self.delivery_points = 0
@@ -398,6 +405,9 @@ class World:
                 fs.crash_tear = fault.get('tear')
             elif kind == 'oserror':
                 fs.error_at[base + fault['at_op']] = fault['errno']
+            elif kind == 'diskfull':
+                fs.diskfull_at = base + fault['at_op']
+                fs.diskfull_frac = fault.get('frac', 0.5)
             elif kind == 'sigint':
                 self.sigint_at = set(fault['at'])
             elif kind == 'sigint_kill':
